@@ -24,4 +24,7 @@ EmitInv ==
 \* witnesses (must be violated): a run where two containers hold the same number and finish out of order
 WitnessRace == ~(pc = "done" /\ \E c, d \in Containers : c < d /\ members[c] \cap members[d] # {}
                     /\ \E i, j \in 1..Len(blocks) : i < j /\ blocks[i] = d /\ blocks[j] = c)
+
+\* witness (must be violated): a filter that removes an object the plain load has
+WitnessFilter == ~(pc = "done" /\ \E n \in DOMAIN PlainResult : n \notin DOMAIN result)
 =============================================================================
